@@ -4,8 +4,8 @@ PROP = "C08"
 
 CFG = dict(
     stages=[
-        seq("tsan", "tsan", "c08_tsched.c", 400, 40000, wrap=True, per_proc_timeout=1800, nprocs=16),
-        seq("asanh", "asanh", "c08_tsched.c", 400, 40000, wrap=True, leak=True, per_proc_timeout=1800, nprocs=16),
+        seq("tsan", "tsan", "c08_tsched.c", 1600, 60000, wrap=True, per_proc_timeout=1800, nprocs=16),
+        seq("asanh", "asanh", "c08_tsched.c", 1600, 60000, wrap=True, leak=True, per_proc_timeout=1800, nprocs=16),
     ],
     rule=("case = one scenario: a real aws_thread_scheduler, 1-3 client threads running PRNG-generated scripts (schedule "
           "now / near future / >1h future / past, cancel of own earlier tasks, acquire+release pairs, pauses), task "
